@@ -3,13 +3,313 @@ C01 (hand-written code) — transcriptions of the loop-carrying / index-computin
 read-fonts/src/tables/layout.rs / gsub.rs / gpos.rs / gdef.rs and the closure modules (Coverage / ClassDef lookups and iterators, Device / VariationIndex decoding, lookup-list walking, context rule walking, FeatureVariations conditions).
 
 Every definition cites the Rust function it transcribes (file + fn) and keeps its checked / saturating /
-wrapping arithmetic and its error returns; `Out.trap` / `none`-as-panic results mark what would be a panic of
+wrapping arithmetic and its error returns; `Res.trap` results mark what would be a panic of
 the overflow-checked profile, and Props/C01HandLayout.lean shows they are never produced.  Tied to the real code
 by harness group `layout.model` (driver commands `hl.*`, Drv/C01HandLayout.lean).
+
+The binary searches are the transcription of `core::slice::binary_search_by` of Model/Layout.lean
+(`Layout.binarySearchBy`), so every result is determined for unsorted / overlapping records, too; the
+parsed forms are the `Layout.Coverage` / `Layout.ClassDef` / `Layout.RangeRec` types of that file.
 -/
 import FontVerif.Model.ReadIter
 import FontVerif.Model.HandRead
+import FontVerif.Model.Layout
+import FontVerif.Model.ShapeExt
 namespace FontVerif.HandLayout
-open FontVerif FontVerif.ReadIter FontVerif.HandRead
+open FontVerif FontVerif.ReadIter FontVerif.HandRead FontVerif.Layout
+
+/-! ## results with a representable panic -/
+
+/-- the value a function returns, or a panic of the overflow-checked profile -/
+inductive Res (α : Type) where
+  | val (a : α)
+  | trap
+  deriving Repr, DecidableEq
+
+def Res.bind {α β : Type} (r : Res α) (k : α → Res β) : Res β :=
+  match r with
+  | .val a => k a
+  | .trap => .trap
+
+/-- `u16` / `usize` subtraction `a - b` of the overflow-checked profile -/
+def subTrap (a b : Nat) : Res Nat := if b ≤ a then .val (a - b) else .trap
+
+/-- `usize` addition of the overflow-checked profile -/
+def addTrapU (a b : Nat) : Res Nat := if a + b ≤ MAXU then .val (a + b) else .trap
+
+/-- `Iterator::any` with a closure that may panic: stops at the first `true` -/
+def anyR {α : Type} (f : α → Res Bool) : List α → Res Bool
+  | [] => .val false
+  | x :: xs =>
+    match f x with
+    | .trap => .trap
+    | .val true => .val true
+    | .val false => anyR f xs
+
+/-! ## generated readers (generated_layout.rs) of the tables the hand-written methods work on -/
+
+inductive LErr where
+  | oob
+  | invalidFormat (n : Nat)
+  deriving Repr, DecidableEq
+
+/-- the `n` big-endian `u16`s at byte `at` (only used when they exist) -/
+def u16sAt (d : List Nat) (at_ n : Nat) : List Nat := (List.range n).map (fun i => beAt d (at_ + 2 * i) 2)
+
+/-- the `n` 6-byte records `(u16, u16, u16)` at byte `at` -/
+def triplesAt (d : List Nat) (at_ n : Nat) : List (Nat × Nat × Nat) :=
+  (List.range n).map (fun i => (beAt d (at_ + 6 * i) 2, beAt d (at_ + 6 * i + 2) 2, beAt d (at_ + 6 * i + 4) 2))
+
+/-- `CoverageTable::read` (format switch) with `CoverageFormat1::read` (`glyph_count` × `GlyphId16`) and
+`CoverageFormat2::read` (`range_count` × `RangeRecord`): cursor reads, `advance_by(count * size)`,
+`finish` = one final bounds check. -/
+def covRead (d : List Nat) : Except LErr Coverage :=
+  match readAt d 0 2 with
+  | none => .error .oob
+  | some fmt =>
+    if fmt = 1 then
+      match readAt d 2 2 with
+      | none => .error .oob
+      | some n => if 4 + n * 2 ≤ d.length then .ok (.fmt1 (u16sAt d 4 n)) else .error .oob
+    else if fmt = 2 then
+      match readAt d 2 2 with
+      | none => .error .oob
+      | some n =>
+        if 4 + n * 6 ≤ d.length then
+          .ok (.fmt2 ((triplesAt d 4 n).map (fun t => ⟨t.1, t.2.1, t.2.2⟩)))
+        else .error .oob
+    else .error (.invalidFormat fmt)
+
+/-- `ClassDef::read` with `ClassDefFormat1::read` (`start_glyph_id`, `glyph_count` × `u16`) and
+`ClassDefFormat2::read` (`class_range_count` × `ClassRangeRecord`) -/
+def clsRead (d : List Nat) : Except LErr ClassDef :=
+  match readAt d 0 2 with
+  | none => .error .oob
+  | some fmt =>
+    if fmt = 1 then
+      match readAt d 2 2, readAt d 4 2 with
+      | some start, some n => if 6 + n * 2 ≤ d.length then .ok (.fmt1 start (u16sAt d 6 n)) else .error .oob
+      | _, _ => .error .oob
+    else if fmt = 2 then
+      match readAt d 2 2 with
+      | none => .error .oob
+      | some n =>
+        if 4 + n * 6 ≤ d.length then
+          .ok (.fmt2 ((triplesAt d 4 n).map (fun t => ⟨t.1, t.2.1, t.2.2⟩)))
+        else .error .oob
+    else .error (.invalidFormat fmt)
+
+/-! ## Coverage (read-fonts/src/tables/layout.rs) -/
+
+/-- `CoverageFormat1::get(gid)`: `gid.try_into::<GlyphId16>().ok()?`,
+`glyph_array.binary_search(&gid).ok().map(|idx| idx as u16)` (no arithmetic, no indexing) -/
+def cov1Get (xs : List Nat) (g : Nat) : Res (Option Nat) :=
+  if g ≥ 65536 then .val none else
+  match binarySearchBy xs.length (fun i => natCmp (xs.getD i 0) g) with
+  | .ok i => .val (some (i % 65536))
+  | .err _ => .val none
+
+/-- `CoverageFormat2::get(gid)`: the binary search with the three-way range comparison, then
+`&self.range_records()[idx]` (index panic), `gid.to_u16() - rec.start_glyph_id().to_u16()` (`u16`
+subtraction) and `start_coverage_index.checked_add(offset)` -/
+def cov2Get (rs : List RangeRec) (g : Nat) : Res (Option Nat) :=
+  if g ≥ 65536 then .val none else
+  match binarySearchBy rs.length (fun i => rangeCmp (rs.getD i default) g) with
+  | .ok i =>
+    match rs[i]? with
+    | none => .trap
+    | some r =>
+      (subTrap g r.start).bind (fun off =>
+        .val (if r.startCov + off < 65536 then some (r.startCov + off) else none))
+  | .err _ => .val none
+
+/-- `CoverageTable::get` -/
+def covGet : Coverage → Nat → Res (Option Nat)
+  | .fmt1 xs, g => cov1Get xs g
+  | .fmt2 rs, g => cov2Get rs g
+
+/-- `RangeRecord::iter`: `(start..=end).map(GlyphId16::new)` — empty for `start > end` -/
+def rangeIter (r : RangeRec) : List Nat := r.glyphs
+
+/-- `CoverageTable::iter`: the glyph array, or `range_records().iter().flat_map(RangeRecord::iter)` -/
+def covIter : Coverage → List Nat
+  | .fmt1 xs => xs
+  | .fmt2 rs => expandRanges rs
+
+/-- `RangeRecord::population` / `ClassRangeRecord::population`:
+`if start > end { 0 } else { end - start + 1 }` on `usize` (guarded subtraction) -/
+def rangePop (start end_ : Nat) : Res Nat :=
+  if start > end_ then .val 0 else (subTrap end_ start).bind (fun n => addTrapU n 1)
+
+/-- `.iter().fold(0, |acc, record| acc + record.population())` on `usize` -/
+def popFold (acc : Nat) : List (Nat × Nat) → Res Nat
+  | [] => .val acc
+  | (s, e) :: rest => (rangePop s e).bind (fun p => (addTrapU acc p).bind (fun a => popFold a rest))
+
+/-- `CoverageFormat1::population` (`glyph_count as usize`), `CoverageFormat2::population` -/
+def covPop : Coverage → Res Nat
+  | .fmt1 xs => .val xs.length
+  | .fmt2 rs => popFold 0 (rs.map (fun r => (r.start, r.end_)))
+
+/-- `32 - n.leading_zeros()` of a `u32` -/
+def bitLen : Nat → Nat
+  | 0 => 0
+  | n + 1 => Nat.log2 (n + 1) + 1
+
+/-- `u64::saturating_mul` -/
+def satMul64 (a b : Nat) : Nat := min (a * b) 18446744073709551615
+
+/-- A glyph set (`IntSet<GlyphId>`) as the ascending list of its members (what `iter()` yields);
+`len()` = length, `contains` = membership, `intersects_range(a..=b)` = some member in `[a, b]`
+(its specification; the implementation is collections/int_set). -/
+abbrev GSet := List Nat
+
+def GSet.intersectsRange (s : GSet) (a b : Nat) : Bool := s.any (fun g => decide (a ≤ g ∧ g ≤ b))
+
+/-- `CoverageFormat1::intersects(glyphs)`: the cheaper of "look every set member up" and "test every
+array entry", chosen by `glyph_count > glyphs.len().saturating_mul(num_bits) / 2` -/
+def cov1Intersects (xs : List Nat) (s : GSet) : Res Bool :=
+  let count := xs.length
+  let numBits := bitLen count
+  if count > satMul64 s.length numBits / 2 then
+    anyR (fun g => (cov1Get xs g).bind (fun r => .val r.isSome)) s
+  else .val (xs.any (fun g => s.contains g))
+
+/-- `RangeRecord::intersects`: `glyphs.intersects_range(start..=end)` -/
+def rangeIntersects (r : RangeRec) (s : GSet) : Bool := s.intersectsRange r.start r.end_
+
+/-- `CoverageFormat2::intersects(glyphs)` -/
+def cov2Intersects (rs : List RangeRec) (s : GSet) : Res Bool :=
+  let count := rs.length
+  let numBits := bitLen count
+  if count > satMul64 s.length numBits / 2 then
+    anyR (fun g => (cov2Get rs g).bind (fun r => .val r.isSome)) s
+  else .val (rs.any (fun r => rangeIntersects r s))
+
+/-- `CoverageTable::intersects` -/
+def covIntersects : Coverage → GSet → Res Bool
+  | .fmt1 xs, s => cov1Intersects xs s
+  | .fmt2 rs, s => cov2Intersects rs s
+
+/-! ## ClassDef -/
+
+/-- `ClassDefFormat1::get(gid)`: `if gid < start { return 0 }`, `idx = gid - start` (`u16`
+subtraction), `class_value_array.get(idx).unwrap_or(0)` -/
+def cls1Get (start : Nat) (cs : List Nat) (g : Nat) : Res Nat :=
+  if g < start then .val 0 else
+  (subTrap g start).bind (fun idx => .val ((cs[idx]?).getD 0))
+
+/-- `ClassDefFormat2::get(gid)`: binary search on `start_glyph_id`, `Err(ix) → ix.saturating_sub(1)`,
+`records.get(ix)`, `(start..=end).contains(&gid)` — nothing that can panic; this is
+`Layout.ClassDef.get` of Model/Layout.lean. -/
+def cls2Get (rs : List ClassRangeRec) (g : Nat) : Res Nat := .val ((ClassDef.fmt2 rs).get g)
+
+/-- `ClassDef::get` -/
+def clsGet : ClassDef → Nat → Res Nat
+  | .fmt1 s cs, g => cls1Get s cs g
+  | .fmt2 rs, g => cls2Get rs g
+
+/-- `ClassDefFormat1::iter`: `enumerate().map(|(i, val)| (start.saturating_add(i as u16), val))` -/
+def cls1Iter (start : Nat) (cs : List Nat) : List (Nat × Nat) :=
+  (List.range cs.length).zipWith (fun i c => (min (start + i % 65536) 65535, c)) cs
+
+/-- `ClassDefFormat2::iter`: `flat_map(|range| (start..=end).map(|gid| (gid, range.class())))` -/
+def cls2Iter : List ClassRangeRec → List (Nat × Nat)
+  | [] => []
+  | r :: rs => (List.range' r.start (r.end_ + 1 - r.start)).map (fun g => (g, r.cls)) ++ cls2Iter rs
+
+/-- `ClassDef::iter` -/
+def clsIter : ClassDef → List (Nat × Nat)
+  | .fmt1 s cs => cls1Iter s cs
+  | .fmt2 rs => cls2Iter rs
+
+/-- `ClassDefFormat1::population`, `ClassDefFormat2::population`, `ClassDef::population` -/
+def clsPop : ClassDef → Res Nat
+  | .fmt1 _ cs => .val cs.length
+  | .fmt2 rs => popFold 0 (rs.map (fun r => (r.start, r.end_)))
+
+/-! ## Device tables -/
+
+/-- a parsed `Device`: `start_size`, `end_size`, the raw `delta_format` word and the `delta_value` words -/
+structure Dev where
+  start : Nat
+  end_ : Nat
+  fmt : Nat
+  words : List Nat
+  deriving Repr, DecidableEq
+
+/-- `DeltaFormat::value_count(start_size, end_size)` — transcribed for the generated readers in
+Model/ShapeExt.lean -/
+def valueCount (fmt start end_ : Nat) : Nat := Shape.customByName "DeltaFormat::value_count" [fmt, start, end_]
+
+/-- generated `Device::read`: three `u16`s, `value_count(..).checked_mul(2).ok_or(OutOfBounds)?`,
+`advance_by`, `finish` -/
+def devRead (d : List Nat) : Except LErr Dev :=
+  match readAt d 0 2, readAt d 2 2, readAt d 4 2 with
+  | some s, some e, some f =>
+    match checkedMul (valueCount f s e) 2 with
+    | none => .error .oob
+    | some len => if 6 + len ≤ d.length then .ok ⟨s, e, f, u16sAt d 6 (valueCount f s e)⟩ else .error .oob
+  | _, _, _ => .error .oob
+
+/-- `(mask, sign_mask, bits)` of `iter_packed_values`; raw formats 1 / 2 / 3, anything else `(0, 0, 0)` -/
+def packParams (fmt : Nat) : Nat × Nat × Nat :=
+  if fmt = 1 then (3, 2, 2) else if fmt = 2 then (15, 8, 4) else if fmt = 3 then (255, 128, 8) else (0, 0, 0)
+
+/-- `x as i8` -/
+def toI8 (x : Int) : Int := (x + 128) % 256 - 128
+
+/-- the body of the `for i in 0..n.min(max_per_word)` loop of `iter_packed_values`:
+`shift = (16 - bits) - i * bits` (`usize` subtractions), `raw >> shift` (panics for `shift ≥ 16`),
+the sign extension `(val as i32 - (1 << bits)) as i8`, and `decoded[i] = Some(val)` on `[None; 8]` -/
+def packedLoop (raw mask signMask bits : Nat) : List Nat → Res (List Int)
+  | [] => .val []
+  | i :: rest =>
+    (subTrap 16 bits).bind (fun a =>
+      (subTrap a (i * bits)).bind (fun shift =>
+        if shift ≥ 16 then .trap
+        else if i ≥ 8 then .trap
+        else
+          let v := (raw / 2 ^ shift) % 65536 &&& mask
+          let sv : Int := if v &&& signMask ≠ 0 then toI8 ((v : Int) - (2 ^ bits : Nat)) else toI8 v
+          (packedLoop raw mask signMask bits rest).bind (fun tl => .val (sv :: tl))))
+
+/-- `iter_packed_values(raw, format, n)`: `max_per_word = 16 / bits` (division by zero for a format
+without deltas), the decoding loop, `decoded.into_iter().flatten()` -/
+def iterPackedValues (raw fmt n : Nat) : Res (List Int) :=
+  let p := packParams fmt
+  if p.2.2 = 0 then .trap
+  else packedLoop raw p.1 p.2.1 p.2.2 (List.range (min n (16 / p.2.2)))
+
+/-- the `flat_map` closure of `Device::iter` over the delta words:
+`iter_packed_values(val, format, n)`, `n = n.saturating_sub(deltas_per_word)` -/
+def devWords (fmt perWord : Nat) : Nat → List Nat → Res (List Int)
+  | _, [] => .val []
+  | n, w :: rest =>
+    (iterPackedValues w fmt n).bind (fun vs =>
+      (devWords fmt perWord (n - perWord) rest).bind (fun tl => .val (vs ++ tl)))
+
+/-- `Device::iter`: `n = end_size.saturating_sub(start_size) as usize + 1`, 8 / 4 / 2 / 0 deltas per word -/
+def devIter (v : Dev) : Res (List Int) :=
+  let n := (v.end_ - v.start) + 1
+  let perWord := if v.fmt = 1 then 8 else if v.fmt = 2 then 4 else if v.fmt = 3 then 2 else 0
+  devWords v.fmt perWord n v.words
+
+/-- generated `DeviceOrVariationIndex::read` + `From<VariationIndex> for DeltaSetIndex`:
+the format word at byte 4 selects `Device::read` or `VariationIndex::read` (6 bytes: outer, inner) -/
+inductive DevOrVar where
+  | device (v : Dev)
+  | varIdx (outer inner : Nat)
+  deriving Repr, DecidableEq
+
+def devOrVarRead (d : List Nat) : Except LErr DevOrVar :=
+  match readAt d 4 2 with
+  | none => .error .oob
+  | some f =>
+    if f ≠ 32768 then (devRead d).map .device
+    else
+      match readAt d 0 2, readAt d 2 2 with
+      | some o, some i => .ok (.varIdx o i)
+      | _, _ => .error .oob
 
 end FontVerif.HandLayout
